@@ -74,6 +74,17 @@ def place(shape, deps):
         return ht.TagList([d[:half], (ht.TagList(*d[half:]),)], "x")
     if shape == "tag_root":
         return ht.tags.section(ht.div(*d[: len(d) // 3]), *d[len(d) // 3:])
+    if shape == "assigned":
+        # dependencies that arrive by item / slice assignment into tags that held only text so far
+        t = ht.div("a", "b", "c")
+        if d:
+            t.children[1] = d[0]
+            t.children[2:2] = d[1:]
+        inner = ht.span("only text")
+        outer = ht.div("x", inner)
+        if d:
+            inner.children[0:0] = []
+        return ht.TagList(t) if len(d) % 2 else t
     if shape == "repeated_subtree":
         # the very same Tag object (with dependencies inside) placed at several positions
         half = len(d) // 2
@@ -118,7 +129,7 @@ def place(shape, deps):
     raise ValueError(shape)
 
 
-SHAPES = ["flat_list", "deep_chain", "scattered", "nested_containers", "tag_root", "appended", "random_tree"]
+SHAPES = ["flat_list", "deep_chain", "scattered", "nested_containers", "tag_root", "appended", "random_tree", "assigned"]
 
 
 def same_ids(a, b):
@@ -333,6 +344,14 @@ def _run(ctx):
     ctx.require("oracle.validation", 40)
     if ctx.shard == 0:
         validation_matrix(ctx)
+        # ... and the same matrix again after reading HTML text whose embedded definition cannot be rebuilt
+        for bad in ('{"name": "b", "version": "1.0", "source": 5}', '{"name": "b", "version": "1.0", "script": [{"nosrc": 1}]}', '{"name": "b"'):
+            try:
+                ht.HTMLTextDocument('<p>x</p><script type="application/json" data-html-dependency="">' + bad + '</script>', deps_replace_pattern="@@")
+            except Exception:
+                pass
+        validation_matrix(ctx)
+        ctx.count("validation_matrix_after_failed_extraction")
     # exhaustive permutations of small multisets
     multisets = [
         [("a", "1.9"), ("a", "1.10"), ("a", "1.10.0"), ("b", "2"), ("b", "1")],
